@@ -75,9 +75,12 @@ def run_tlc(module, cfg, workers=None, env=None, timeout=3600, extra=(), deadloc
     workers = workers or NCPU
     meta = os.path.join(BUILD, "tlc", "%s-%d-%d" % (module, os.getpid(), int(time.time() * 1e6) % 10**9))
     os.makedirs(meta, exist_ok=True)
-    jopts = ["-XX:+UseParallelGC", "-Xss64m"]
+    jopts = ["-XX:+UseParallelGC", "-XX:ParallelGCThreads=%d" % max(2, min(workers, 8)), "-Xss64m"]
     if heap:
         jopts.append("-Xmx%s" % heap)
+    elif workers <= 2:
+        # many small TLC processes run side by side: keep each one's memory and helper threads small
+        jopts += ["-Xmx2g", "-XX:MaxDirectMemorySize=512m", "-XX:CICompilerCount=2"]
     cmd = ["java"] + jopts + ["-cp", "/opt/veriftools/tla/tla2tools.jar:/opt/veriftools/tla/CommunityModules-deps.jar",
                               "tlc2.TLC", "-workers", str(workers), "-metadir", meta, "-noGenerateSpecTE"]
     if not deadlock:
